@@ -89,28 +89,40 @@ def P3_adapter(ctx):
         for p in feasible(cf.paths()):
             ret = [e for e in p.events if e.kind == 'ret'][0].d['value']
             call = [e for e in p.events if e.kind == 'call' and e.d['callee'].endswith('::call') and 'precompile' in show(e.d['args'][0])]
-            tf = calls(p, 'ParallelPrecompileState::take_fault')
-            mo = [e for e in p.events if e.kind == 'call' and norm_callee(e.d['callee']).endswith('Option::map_or')]
-            if not call or not tf or not mo or idx_of(p, tf[0]) < idx_of(p, call[0]):
+            # the recorded fault is taken out of the facade state (through take_fault or directly)
+            tf = calls(p, 'ParallelPrecompileState::take_fault') or \
+                [e for e in p.events if e.kind == 'call' and norm_callee(e.d['callee']).endswith(('Option::take', 'mem::take')) and mentions_field(e.d['args'][0], 'ParallelPrecompileState.fault')]
+            if not call or not tf or idx_of(p, tf[0]) < idx_of(p, call[0]):
                 bad.append((p, 'recorded fault not consulted after the implementation returned'))
                 continue
-            m = mo[0]
-            if not (m.d['args'][0] == tf[0].d['result'] and m.d['args'][1] == call[0].d['result'] and 'Err' in show(m.d['args'][2])):
-                bad.append((p, 'effective result is not take_fault().map_or(result, Err)'))
-            dec = [a.d['outcome'] for a in p.events if a.kind == 'atom' and a.d['term'][0] == 'discr' and mentions(a.d['term'][1], m.d['result'])]
-            if 'Ok' in dec:
-                rows.add('ok')
-                if not (ret[0] == 'agg' and ret[2] == 'Ok' and mentions(ret, m.d['result'])):
-                    bad.append((p, 'Ok output not forwarded'))
-            elif 'Halt' in dec:
+            ff = [of for of in (option_fact(a) for a in p.events) if of and of[1] in ('Some', 'None') and strip(of[0]) == strip(tf[0].d['result'])]
+            if not ff:
+                bad.append((p, 'recorded fault taken but never tested'))
+                continue
+            faulted = ff[-1][1] == 'Some'
+            src = tf[0].d['result'] if faulted else call[0].d['result']
+            other = call[0].d['result'] if faulted else tf[0].d['result']
+            dec = [a for a in p.events if a.kind == 'atom' and a.d['term'][0] == 'discr' and a.d['outcome'] in ('Ok', 'Err', 'Halt', 'Fatal')]
+            if any(mentions(a.d['term'][1], other) and not mentions(a.d['term'][1], src) for a in dec if a.d['term'][1] != tf[0].d['result']) and faulted:
+                bad.append((p, 'a recorded fault does not override the implementation result'))
+            outs = [a.d['outcome'] for a in dec if mentions(a.d['term'][1], src)]
+            if faulted and 'Ok' in outs:
+                bad.append((p, 'a recorded fault is treated as success'))
+            if 'Halt' in outs:
                 rows.add('halt')
                 h = [e for e in p.events if e.kind == 'call' and e.d['callee'].endswith('PrecompileOutput::halt')]
-                if not (h and ret[0] == 'agg' and ret[2] == 'Ok' and ret[3][0] == h[0].d['result'] and mentions_field(h[0].d['args'][1], 'PrecompileInput.reservoir')):
+                if not (h and ret[0] == 'agg' and ret[2] == 'Ok' and ret[3][0] == h[0].d['result'] and mentions_field(h[0].d['args'][1], 'PrecompileInput.reservoir') and mentions(h[0].d['args'][0] if h[0].d['args'] else ('unk', ''), src)):
                     bad.append((p, 'Halt must become Ok(PrecompileOutput::halt(reason, input reservoir))'))
-            elif 'Fatal' in dec:
+            elif 'Fatal' in outs:
                 rows.add('fatal')
-                if not (ret[0] == 'agg' and ret[2] == 'Err' and mentions(ret, m.d['result'])):
+                if not (ret[0] == 'agg' and ret[2] == 'Err' and mentions(ret, src)):
                     bad.append((p, 'Fatal must become Err(error)'))
+            elif 'Ok' in outs and not faulted:
+                rows.add('ok')
+                if not (ret[0] == 'agg' and ret[2] == 'Ok' and mentions(ret, src)):
+                    bad.append((p, 'Ok output not forwarded'))
+            else:
+                bad.append((p, f'effective result not classified (fault present={faulted}, decisions {outs})'))
     ctx.ob('P3', ta, 'fault-enforcing-adapter-table', rows == {'ok', 'halt', 'fatal'} and not bad, '; '.join(sorted(set(w for _, w in bad))[:3]) + f' rows={sorted(rows)}', site=ta.loc(ta.b['lo']),
            what='the call result is the recorded facade fault if there is one (even when the implementation ignored it), else the implementation\'s result; Halt ⇒ halting output charging the reservoir, Fatal ⇒ fatal error')
     fa = ctx.method("precompile::ParallelPrecompileInput<'a>", 'from_alloy')
